@@ -38,6 +38,7 @@ type crowdCall struct {
 
 	cancelled bool
 	wraps     int
+	jumped    bool
 
 	cancelledAtReturn bool
 }
@@ -122,6 +123,7 @@ func (w *world) simulateCrowd(choices []int) {
 	// take a hundred thousand steps). Phase 2: twenty-five fair rounds, so that every worker has started mining (or is waiting for whatever it needs to start). Phase 3: the
 	// calls are cancelled one at a time, call K-1 first, each after the previous one has returned.
 	spawned, settle, waitSpins, sinceReturn := false, 0, 0, 8
+	timersTried := false
 	// which call is cancelled next: the one with the most workers waiting for a lock or a channel (a call that is being
 	// starved of some process-wide resource is the interesting victim), the highest-numbered one on a tie; never before
 	// the previously cancelled call has returned
@@ -223,6 +225,25 @@ func (w *world) simulateCrowd(choices []int) {
 		if all && onlyCancellers(parked) {
 			break
 		}
+		if len(en) == 0 && !all && !timersTried {
+			// everything that is left may be asleep on a timer: let the clock run before calling it a deadlock
+			timersTried = true
+			nParked := len(parked)
+			for _, d := range idleSlices {
+				kernel.HiddenSleep(d)
+				k.Quiesce()
+				got := false
+				for _, c := range calls {
+					if !c.returned && len(c.res) > 0 {
+						got = true
+					}
+				}
+				if got || len(k.Parked()) != nParked {
+					break
+				}
+			}
+			continue
+		}
 		if len(en) == 0 {
 			if !all {
 				w.violate("deadlock", fmt.Sprintf("no actor is enabled while %d concurrent Mine calls are in flight; %s", len(calls), describeBlocked(base)), nil)
@@ -275,6 +296,13 @@ func (w *world) simulateCrowd(choices []int) {
 			for i, c := range calls {
 				if c.cancelled && !c.returned {
 					c.wraps++
+					if c.wraps > crowdRounds && !c.jumped {
+						// rounds are not time (see simulate): move the clock once before the verdict
+						c.jumped = true
+						c.wraps = 0
+						kernel.HiddenSleep(idleAfterCancelMax)
+						k.Quiesce()
+					}
 					if c.wraps > crowdRounds {
 						w.violate("hang-after-cancel", fmt.Sprintf("call %d of %d concurrent Mine calls (%d workers each) did not return within %d fair rounds after its own context was cancelled, while the other calls kept mining", i, len(calls), cfg.Workers, crowdRounds), nil)
 					}
@@ -284,6 +312,7 @@ func (w *world) simulateCrowd(choices []int) {
 				break
 			}
 		}
+		timersTried = false
 		k.Wake(e.Who)
 	}
 	// cancellers that were never needed (their call returned by itself) are let go before the census: they are the
